@@ -157,6 +157,23 @@ pub fn set_node_init(f: fn()) {
     let _ = NODE_INIT.set(f);
 }
 
+/// Process configuration the library can meet: a `log` logger installed at Trace level.  The
+/// sink formats every record (so that lazily evaluated log arguments ARE evaluated, on whatever
+/// thread logs) and throws the text away.
+struct LogSink;
+impl log::Log for LogSink {
+    fn enabled(&self, _: &log::Metadata) -> bool { true }
+    fn log(&self, record: &log::Record) {
+        let text = format!("{}", record.args());
+        std::hint::black_box(text.len());
+    }
+    fn flush(&self) {}
+}
+static LOG_SINK: LogSink = LogSink;
+pub fn install_log_sink() {
+    if log::set_logger(&LOG_SINK).is_ok() { log::set_max_level(log::LevelFilter::Trace); }
+}
+
 pub fn install_quiet_panic_hook() {
     let prev = std::panic::take_hook();
     std::panic::set_hook(Box::new(move |info| {
